@@ -24,7 +24,7 @@ from mindsdb_sql.parser.dialects.mindsdb.lexer import MindsDBLexer
 from mindsdb_sql.parser.dialects.mindsdb.retrain_predictor import RetrainPredictor
 from mindsdb_sql.parser.dialects.mindsdb.finetune_predictor import FinetunePredictor
 from mindsdb_sql.parser.logger import ParserLogger
-from mindsdb_sql.parser.utils import ensure_select_keyword_order, JoinType, tokens_to_string
+from mindsdb_sql.parser.utils import ensure_select_keyword_order, JoinType, node_to_message, tokens_to_string
 
 all_tokens_list = MindsDBLexer.tokens.copy()
 all_tokens_list.remove('RPAREN')
@@ -605,7 +605,7 @@ class MindsDBParser(Parser):
 
         if where is not None and not isinstance(where, Operation):
             raise ParsingException(
-                f"WHERE must contain an operation that evaluates to a boolean, got: {str(where)}")
+                f"WHERE must contain an operation that evaluates to a boolean, got: {node_to_message(where)}")
 
         return Delete(table=p.identifier, where=where)
 
@@ -1198,7 +1198,7 @@ class MindsDBParser(Parser):
         having = p.expr
         if not isinstance(having, Operation):
             raise ParsingException(
-                f"HAVING must contain an operation that evaluates to a boolean, got: {str(having)}")
+                f"HAVING must contain an operation that evaluates to a boolean, got: {node_to_message(having)}")
         select.having = having
         return select
 
@@ -1220,7 +1220,7 @@ class MindsDBParser(Parser):
         where_expr = p.expr
         if not isinstance(where_expr, Operation):
             raise ParsingException(
-                f"WHERE must contain an operation that evaluates to a boolean, got: {str(where_expr)}")
+                f"WHERE must contain an operation that evaluates to a boolean, got: {node_to_message(where_expr)}")
         select.where = where_expr
         return select
 
